@@ -121,7 +121,30 @@ def check_render(profile, shown, report):
         elif says_necessary != expect_refactor:
             out.append(("verdict-wrong", {"format": fmt, "says_necessary": says_necessary, **({"console_width": width} if width != 250 else {})},
                         f"{fmt}: shown (ev,h,u)={(ev, h, u)} profile {profile} verdict {verdict[0].strip()!r}"))
+    if sum(profile) % 10 == 0 and sum(profile) > 0:
+        # the whole report next to a comparison report whose verdict is the OPPOSITE one: the summary is about the current report
+        other = _other_report(not expect_refactor)
+        for fmt, mod in (("text", format_text), ("markdown", format_markdown)):
+            text = harness.render(mod.print_report, report, other, console_pos=0)
+            verdict = [l for l in text.splitlines() if "refactoring" in l.lower()]
+            says_necessary = [("refactoring necessary" in v and "no refactoring necessary" not in v) for v in verdict]
+            if len(verdict) != 1 or says_necessary[0] != expect_refactor:
+                out.append(("verdict-wrong", {"format": fmt, "with_comparison_report": True},
+                            f"{fmt} report with a comparison report: shown (ev,h,u)={(ev, h, u)} profile {profile} verdict lines {[v.strip() for v in verdict]}"))
     return out
+
+
+_OTHER = {}
+
+
+def _other_report(refactor: bool):
+    if refactor not in _OTHER:
+        from codelimit.common.report.Report import Report
+
+        cb = harness.codebase([("prev.py", "Python", [70, 70, 5] if refactor else [5, 5, 5, 5])])
+        cb.aggregate()
+        _OTHER[refactor] = Report(cb)
+    return _OTHER[refactor]
 
 
 def eval_profile(profile, render: bool):
